@@ -6,19 +6,19 @@ real `Migrator`, and the current parser; oracle = the output parses, its token s
 minus the `for` index type annotations, every comment is kept, programs of the current grammar are left
 alone; `vmodel migrate` must predict the migrator's output text exactly.
 
-A failing case is attributed to known defects only if repairing exactly those defects (and nothing
-else) makes the case pass — see `attribute`."""
+Three defects are recorded findings (comments inside the removed annotation are dropped; old-only string
+escapes and the identifier `mixin` are copied verbatim).  A failing case is attributed to them only if
+repairing exactly those (and nothing else) makes the case pass — see `attribute`; anything else,
+including a wrong (line, column) reported by the old parser, is a violation."""
 import os
 import re
 import gen
 from vlib import *
 
 LEVEL = "proof"
-THEOREMS = ["content_only_spaces", "ascii_positions", "separated_stay_separated", "merge_witness",
-            "multiline_shift_witness", "positions_fixed", "walk_drops_annotation", "current_grammar_untouched"]
+THEOREMS = ["content_only_spaces", "detectNl_ok", "positions", "separated_stay_separated", "walk_drops_annotation",
+            "current_grammar_untouched", "old_merge_witness", "old_multiline_shift_witness"]
 
-KEY_BYTECOL = "migrator:push_token:byte-column-advance"
-KEY_COMCOL = "migrator:split_comment_token:column-bytes-after-multibyte"
 KEY_ANNCOM = "migrator:for_statement:annotation-comments-dropped"
 KEY_ESC = "migrator:old-grammar:string-escape-not-rewritten"
 KEY_MIXIN = "migrator:old-grammar:identifier-mixin-now-keyword"
@@ -68,9 +68,6 @@ class Case:
         self.mig_op = None
         self.out = None          # real output
         self.model_out = None    # as-coded model
-        self.fix_out = None      # repaired column tracking (model)
-        self.true_out = None     # as coded, on the token list with true comment columns (model)
-        self.fix_true_out = None # repaired tracking on true positions (model)
         self.replies = {}        # parse/tokens/comments/annotation/decide: (impl, oracle)
         self.toks = []
 
@@ -78,10 +75,6 @@ class Case:
 def repairs_for(case):
     """Which repairs are applicable to this case at all."""
     r = []
-    if case.fix_out is not None:
-        r.append(KEY_BYTECOL)
-    if case.true_out is not None and case.fix_true_out is not None:
-        r.append(KEY_COMCOL)
     if any(is_string(t) and OLD_ONLY_ESC.search(t) for t, keep, com in case.toks if keep and not com):
         r.append(KEY_ESC)
     if any(t == "mixin" for t, keep, com in case.toks if keep and not com):
@@ -90,10 +83,7 @@ def repairs_for(case):
 
 
 def apply_repairs(case, rs):
-    if KEY_COMCOL in rs:
-        text = case.fix_true_out if KEY_BYTECOL in rs else case.true_out
-    else:
-        text = case.fix_out if KEY_BYTECOL in rs else case.out
+    text = case.out
     exp = [t for t, keep, com in case.toks if keep and not com and t != ""]
     com_all = [t for t, keep, com in case.toks if com]
     com_kept = [t for t, keep, com in case.toks if com and keep]
@@ -138,12 +128,6 @@ def read_cases(d):
             cur.model_out = None if m in ("?", "bad-op") else unhex(m).decode("utf-8")
             cur.model_raw = m
             cur.toks = parse_toks(o.split(" ")[2])
-        elif k == "migfix":
-            cur.fix_out = None if m in ("?", "bad-op") else unhex(m).decode("utf-8")
-        elif k == "migT":
-            cur.true_out = None if m in ("?", "bad-op") else unhex(m).decode("utf-8")
-        elif k == "migfixT":
-            cur.fix_true_out = None if m in ("?", "bad-op") else unhex(m).decode("utf-8")
         elif k == "decide":
             cur.replies["decide"] = (i, r, m, o)
         else:
@@ -217,8 +201,8 @@ def run(ctx):
     ctx.cov["trusted_base"] = [
         "Lean 4.33 kernel; axioms ⊆ {propext, Classical.choice, Quot.sound}",
         "tools/gen.py (extracts the body of Migrator::migratable)",
-        "veryl_migrator::Parser accepts the previous grammar and reports token (line, column) as the current lexer does "
-        "(characters for ordinary tokens, bytes for comments after a multi-byte comment: C12)",
+        "veryl_migrator::Parser accepts the previous grammar; the (line, column) it reports are checked against a scan of "
+        "the source on every case (`positions`)",
         "the old tree walk order (every run's token list comes from the real old tree); the Formatter that cmd_migrate "
         "runs after the migrator is not part of this check (C08/C09)",
         "harness/src/dom_migrate.rs + checks/c23.py"]
@@ -272,6 +256,10 @@ def run(ctx):
             continue
         ann = c.replies.get("annotation")
         bad = [k for k in ("parse", "tokens", "comments") if k in c.replies and c.replies[k][0] != c.replies[k][1]]
+        posr = c.replies.get("positions")
+        if posr and posr[1] != "?" and posr[0] != posr[1]:
+            ctx.violation(f"migrate: the old parser reports a wrong (line, column): {posr[0]}; source {c.src[:200]!r}",
+                          c.src_line + "\n", kind="impl!=oracle")
         if ann and ann[0] != ann[1]:
             ctx.violation(f"migrate: the `for` annotation found in the old tree differs from `for <ident> : … in` on the token texts; "
                           f"source {c.src[:200]!r}", c.src_line + "\n", kind="impl!=oracle")
